@@ -77,6 +77,8 @@ func buildTree(x *mc.X, zFailsOnce bool) *tree {
 	child, err := t.root.LookupChild(mk("z"))
 	must(err)
 	t.z, _ = child.GetPair()
+	// From now on the allocators are scheduling points.
+	w.point = x.Point
 	return t
 }
 
@@ -401,13 +403,24 @@ func cBulkReads(name string, d dirSel) call {
 
 func (c call) io() call { c.legal = withIO(c.legal); return c }
 
-func concurrentScenario(name string, zFailsOnce bool, quick int, calls ...call) *mc.Scenario {
+type scOpt struct {
+	zFailsOnce bool
+	quick      int      // deviation bound of the quick tier (-1: unbounded, state pruning only)
+	c13        bool     // also serves C13 (listing guarantee under concurrency)
+}
+
+func concurrentScenario(name string, o scOpt, calls ...call) *mc.Scenario {
+	props := []string{"C14"}
+	if o.c13 {
+		props = append(props, "C13")
+	}
+	zFailsOnce, quick := o.zFailsOnce, o.quick
 	// cur carries the tree from Build to Finish (a worker process runs the
 	// executions of one scenario strictly one after another).
 	var cur *tree
 	return &mc.Scenario{
 		Name:     name,
-		Props:    []string{"C14"},
+		Props:    props,
 		Liveness: []string{"C14"},
 		Livelock: []string{"C14"},
 		Panics:   []string{"C14"},
@@ -444,80 +457,108 @@ func concurrentScenario(name string, zFailsOnce bool, quick int, calls ...call) 
 }
 
 func buildScenarios() []*mc.Scenario {
-	l := []*mc.Scenario{
+	all := scOpt{quick: -1}
+	p3 := scOpt{quick: 3}
+	return []*mc.Scenario{
 		// Renames in opposite directions between two directories, over
 		// existing leaves, with a lookup that locks two directories.
-		concurrentScenario("conc-rename-opposite", false, 3,
+		concurrentScenario("conc-rename-opposite", all,
 			cRename("rename(d1/a->d2/b)", selD1, "a", selD2, "b"),
 			cRename("rename(d2/b->d1/a)", selD2, "b", selD1, "a"),
 			cLookup("lookup(d1/e)", selD1, "e")),
 		// Directories over empty directories in opposite directions:
 		// each rename locks three directories.
-		concurrentScenario("conc-rename-dirs-opposite", false, 3,
+		concurrentScenario("conc-rename-dirs-opposite", all,
 			cRename("rename(d1/g->d2/c)", selD1, "g", selD2, "c"),
 			cRename("rename(d2/c->d1/g)", selD2, "c", selD1, "g"),
 			cLookup("lookup(d2/c)", selD2, "c")),
+		// The same with a thread that sits inside the target directory
+		// (it holds its lock while the file allocator is called), so
+		// that the renames have to back off.
+		concurrentScenario("conc-rename-dirs-holder", all,
+			cRename("rename(d1/g->d2/c)", selD1, "g", selD2, "c"),
+			cRename("rename(d2/c->d1/g)", selD2, "c", selD1, "g"),
+			cOpenCreate("open(d2/c/n)", selC, "n")),
 		// Rename into a directory that is being removed.
-		concurrentScenario("conc-rename-into-removed", false, 3,
+		concurrentScenario("conc-rename-into-removed", all,
 			cRename("rename(f->d1/g/f)", selRoot, "f", selG, "f"),
 			cRemove("rmdir(d1/g)", selD1, "g", true, false),
 			cMkdir("mkdir(d1/g)", selD1, "g")),
-		// Lookup / listing with attributes of child e that need e's lock
-		// while e is removed and its parent is emptied.
-		concurrentScenario("conc-lookup-remove-removeall", false, 3,
+		// Lookup with attributes of child g that need g's lock, while g
+		// is removed and its parent is emptied.
+		concurrentScenario("conc-lookup-remove-removeall", all,
 			cLookup("lookup(d1/g)", selD1, "g"),
 			cRemove("rmdir(d1/g)", selD1, "g", true, false),
 			cRemoveAllChildren("RemoveAllChildren(d1)", selD1, false)),
-		concurrentScenario("conc-readdir-remove-removeall", false, 3,
+		// getAndLockIfDirectory has to give up the parent, and finds the
+		// entry replaced when it comes back: lookup, remove and rename.
+		concurrentScenario("conc-lookup-revalidate", all,
+			cLookup("lookup(d1/g)", selD1, "g"),
+			cOpenCreate("open(d1/g/n)", selG, "n"),
+			cCreateChildren("CreateChildren(d1,{g/},overwrite)", selD1, true, nil, []string{"g"})),
+		concurrentScenario("conc-remove-revalidate", all,
+			cRemove("rmdir(d1/g)", selD1, "g", true, false),
+			cOpenCreate("open(d1/g/n)", selG, "n"),
+			cCreateChildren("CreateChildren(d1,{g/},overwrite)", selD1, true, nil, []string{"g"})),
+		concurrentScenario("conc-rename-revalidate", all,
+			cRename("rename(d2/c->d1/g)", selD2, "c", selD1, "g"),
+			cOpenCreate("open(d1/g/n)", selG, "n"),
+			cRemoveAllChildren("RemoveAllChildren(d1)", selD1, false)),
+		// Listings with attributes that need the lock of each child
+		// directory: the listing drops the parent lock while it waits
+		// for g and finds its position gone. a and e exist throughout.
+		concurrentScenario("conc-readdir-reseek", scOpt{quick: -1, c13: true},
+			cReadDir("readdir(d1)", selD1, "a", "e"),
+			cOpenCreate("open(d1/g/n)", selG, "n"),
+			cCreateChildren("CreateChildren(d1,{g/},overwrite)", selD1, true, nil, []string{"g"})),
+		concurrentScenario("conc-readdir-remove", scOpt{quick: -1, c13: true},
+			cReadDir("readdir(d1)", selD1, "a", "g"),
+			cOpenCreate("open(d1/e/n)", selE, "n"),
+			cRemoveAll("RemoveAll(d1/e)", selD1, "e")),
+		concurrentScenario("conc-readdir-remove-removeall", all,
 			cReadDir("readdir(d1)", selD1),
 			cRemove("rmdir(d1/g)", selD1, "g", true, false),
 			cRemoveAllChildren("RemoveAllChildren(d1/e,self)", selE, true)),
-		// The listing guarantee under concurrency: a and e stay, g goes,
-		// n comes.
-		concurrentScenario("conc-readdir-stable", false, 3,
-			cReadDir("readdir(d1)", selD1, "a", "e"),
-			cRemove("rmdir(d1/g)", selD1, "g", true, false),
-			cMkdir("mkdir(d1/g/n)", selG, "n")),
 		// Rename of a directory over an empty one while somebody
 		// creates a directory inside the target.
-		concurrentScenario("conc-rename-over-mkdir-inside", false, 3,
+		concurrentScenario("conc-rename-over-mkdir-inside", all,
 			cRename("rename(d2/c->d1/g)", selD2, "c", selD1, "g"),
 			cMkdir("mkdir(d1/g/n)", selG, "n"),
 			cLookup("lookup(d1/g)", selD1, "g")),
-		// Remove against CreateChildren(overwrite) of the same names.
-		concurrentScenario("conc-remove-createchildren", false, 3,
+		// Remove against CreateChildren(overwrite) of the same name.
+		// (Only one existing name is overwritten: upstream walks the
+		// argument map in Go's random order when detaching.)
+		concurrentScenario("conc-remove-createchildren", all,
 			cBulkRemove("Remove(d1/g)", selD1, "g"),
-			// (Only one existing name is overwritten: upstream walks the
-			// argument map in Go's random order when detaching.)
 			cCreateChildren("CreateChildren(d1,{g/,n},overwrite)", selD1, true, []string{"n"}, []string{"g"}),
 			cBulkReads("ReadDir+LookupAllChildren(d1)", selD1)),
 		// FilterChildren removing everything while entries move.
-		concurrentScenario("conc-filter-rename", false, 2,
+		concurrentScenario("conc-filter-rename", all,
 			cFilterRemoveAll("FilterChildren(d1,remove-all)", selD1),
 			cRename("rename(d1/a->d2/a2)", selD1, "a", selD2, "a2"),
 			cRename("rename(d1/e->d2/c)", selD1, "e", selD2, "c")),
-		// Same-directory pairs.
-		concurrentScenario("conc-same-directory", false, 3,
+		// Same-directory calls, four threads.
+		concurrentScenario("conc-same-directory", all,
 			cOpenCreate("open(d1/n)", selD1, "n"),
 			cMkdir("mkdir(d1/n)", selD1, "n"),
 			cRemove("remove(d1/a)", selD1, "a", true, true),
 			cLink("link(d1/a)", selD1, "a")),
 		// Recursive removal against calls entering the subtree.
-		concurrentScenario("conc-removeall-enter", false, 3,
+		concurrentScenario("conc-removeall-enter", p3,
 			cRemoveAll("RemoveAll(/d1)", selRoot, "d1"),
 			cCreateAndEnter("CreateAndEnter(d1/e/n)+open", selE, "n", "y"),
 			cRename("rename(d2/b->d1/e/b)", selD2, "b", selE, "b")),
-		concurrentScenario("conc-removeallchildren-root", false, 3,
+		concurrentScenario("conc-removeallchildren-root", p3,
 			cRemoveAllChildren("RemoveAllChildren(/,self)", selRoot, true),
 			cRename("rename(d1/e->d2/c)", selD1, "e", selD2, "c"),
 			cCreateAndEnter("CreateAndEnter(d2/c)", selD2, "c", "")),
 		// Lazy directory initialised by several calls at once; the
 		// fetcher fails the first time.
-		concurrentScenario("conc-lazy-init", true, 3,
+		concurrentScenario("conc-lazy-init", scOpt{quick: -1, zFailsOnce: true},
 			cLookup("lookup(z/a)", selZ, "a").io(),
 			cBulkReads("ReadDir+LookupAllChildren(z)", selZ).io(),
 			cRemove("rmdir(/z)", selRoot, "z", true, false).io()),
-		concurrentScenario("conc-lazy-rename-over", false, 3,
+		concurrentScenario("conc-lazy-rename-over", all,
 			cRename("rename(d2/c->/z)", selD2, "c", selRoot, "z"),
 			cOpenCreate("open(z/n)", selZ, "n"),
 			cRemoveAllChildren("RemoveAllChildren(z)", selZ, false)),
@@ -537,5 +578,4 @@ func buildScenarios() []*mc.Scenario {
 			},
 		},
 	}
-	return l
 }
